@@ -168,10 +168,6 @@ func simple(op, path string, mode fs.FileMode) error {
 	return nil
 }
 
-func after(f func() error) error {
-	err := f()
-	return err
-}
 
 func Mkdir(name string, perm fs.FileMode) error {
 	if err := simple("Mkdir", name, perm); err != nil {
